@@ -389,6 +389,13 @@ func cmdCheck(args []string) {
 				wall = 30 * time.Minute
 			}
 		}
+		// GOSYM_MAXWALL=<seconds>: cap on every harness's wall budget (smoke runs of a tier)
+		if mw := 0; true {
+			fmt.Sscanf(os.Getenv("GOSYM_MAXWALL"), "%d", &mw)
+			if mw > 0 && wall > time.Duration(mw)*time.Second {
+				wall = time.Duration(mw) * time.Second
+			}
+		}
 		maxSteps := s.MaxSteps
 		if maxSteps == 0 {
 			maxSteps = 5000000
